@@ -11,9 +11,11 @@ for d in sorted(glob.glob(os.path.join(root, 'seeded', '*'))):
     summ = m.get('summary', '').replace('|', '/').replace('\n', ' ')
     if len(summ) > 170:
         summ = summ[:167] + '...'
-    note = 'caught' if m.get('caught_by_check') else '**missed**'
-    if 'missed by the first version' in out:
-        note = 'caught after strengthening (§11)'
+    note = 'caught' if m.get('caught_by_check') else '**not by this check** — ' + out.replace('|', '/')[:230]
+    if 'missed by the first version' in out or 'would have missed it' in out:
+        note = 'caught after strengthening (§10)'
+    if 'VERIF_HUGE' in out:
+        note += ', thorough tier only'
     rows.append('| %s | %s | %s | %s | %s | %s |' % (os.path.basename(d), m.get('breaks_property'), summ, note, cls.group(1) if cls else '-', mini.group(1) if mini else '-'))
 table = '| id | property | change | check of that property | violation class | minimised steps |\n|----|----------|--------|------------------------|-----------------|-----------------|\n' + '\n'.join(rows)
 p = os.path.join(root, 'DESIGN.md')
